@@ -222,7 +222,7 @@ class VStructuralTranslatorL1( StructuralTranslatorL1 ):
     value = int(value)
     if value < 0:
       # N'd-3 is not a number in Verilog
-      return f"-{nbits}'d{-value}"
+      return f"-{max( nbits, (-value).bit_length() )}'d{-value}"
     return f"{nbits}'d{value}"
 
   def rtlir_tr_literal_number( s, nbits, value ):
